@@ -13,6 +13,7 @@ RULE = ("the REAL apps/nsqd binary (built -tags verif from the repository under 
         "SIGKILLed 45% at the k-th hit of a named point (persist:after-tmp-write / after-fsync / after-rename, delete-topic|channel:before|after-remove, "
         "notify:spawn / notify:done; k aimed at the estimated hit count, boot persist included), 17% at a random wall-clock instant during the requests, "
         "20% immediately after the last answer, 18% after exact idleness (status socket: notify:spawn == notify:done, no request in flight); "
+        "plus the K8 schedule (two concurrent deleters, persist parked inside GetMetadata, NSQ_VERIF_WAIT) replayed on every run; "
         "35% of the cycles hold deleters at before-remove until pending Notify goroutines are done (the F6 schedule); a concurrent reader samples "
         "nsqd.dat every ~150 us; 15% of the scenarios run under strace -f (openat/write/fsync/close/rename*/unlink*/truncate* projected on nsqd.dat*); "
         "after each kill nsqd.dat is read and the daemon restarted. (b) crafted nsqd.dat files fed to start-up: invalid names, duplicate topics/channels "
@@ -30,8 +31,9 @@ TRUSTED = [
 ASSUMPTIONS = [
     "C06 'partial': power-loss durability (fsync honesty; the code does not fsync the directory after the rename) is outside the crash model - a SIGKILL keeps the page cache, so the model's crash loses process state only",
     "C06 'partial': the data-path lock (flock) is OS behaviour; it is tested on the real binaries (second daemon exits non-zero, first unaffected, lock released by SIGKILL), not proved",
-    "C06 'partial': GetMetadata reads the topics one after the other, each under its own lock (modelled so); with two or more CONCURRENT mutating clients the persisted document can combine channel sets of different instants, "
-    "so 'the restart state is ONE live state the daemon passed through' is proved componentwise (topic set = one passed-through state's; each entry = that topic in some passed-through state) and checked exactly for a sequential client",
+    "KNOWN FINDING K8: GetMetadata reads the topics one after the other, each under its own lock (modelled so); with two or more CONCURRENT mutating clients the persisted document can combine channel sets of "
+    "different instants, so 'the restart state is ONE live state the daemon passed through' is refuted in general (C06_atomic_full_refuted; reproduced on the real daemon on every run, case fixed-K8-mixed-document), "
+    "proved componentwise for all schedules (C06_atomic), and proved exactly outside the K8 region (C06_atomic_outside) which contains every sequential-client schedule (C06_atomic_sequential)",
     "C06_pause_acked is proved for topic pause/unpause; the channel variant has the same handler shape (checked by C06_source_shape, exercised by the driver's monitor) but its proof is not mechanised",
     "persist failures (disk full, EIO) are not modelled: PersistMetadata is assumed to succeed",
 ]
@@ -40,14 +42,16 @@ LEVEL_TEXT = ("Machine-checked proof (Coq 8.16.1) over an executable small-step 
               "then performs open(O_TRUNC) tmp / write (any chunking) / fsync / close / rename, a file system, SIGKILL and restart (tolerant load + start-up persist). "
               "For EVERY schedule (all interleavings, kills between any two steps and inside the write, any number of restarts): nsqd.dat is absent or a completely "
               "written, fsynced document whose topic set is that of a live state passed through and whose entries are persisted forms of topics in live states passed "
-              "through, and no restart finds an undecodable file (C06_atomic); whenever no request, Notify goroutine or persist is in progress the file equals the "
+              "through, and no restart finds an undecodable file (C06_atomic); the stronger 'the document is ONE passed-through live state' is refuted by a concrete schedule (C06_atomic_full_refuted, known finding K8), proved for every schedule in which "
+              "no GetMetadata has two mutation steps between its topic reads (C06_atomic_outside) and hence for every sequential client (C06_atomic_sequential); whenever no request, Notify goroutine or persist is in progress the file equals the "
               "persisted form of the live state - every completed creation in, every completed deletion out (C06_idle_full; the pre-fix program is refuted by the F6 "
               "schedule inside Coq); an answered topic pause/unpause is in the file from the answer on, across kills and restarts, until another request touches the "
               "topic (C06_pause_acked). The model's step function is DEFINED from gen/MetaShape.v, the call-order table regenerated from the source on every run "
               "(C06_source_shape). Tied to the code by differential correspondence on the real nsqd binary under kill-point / wall-clock SIGKILL, strace and a concurrent reader.")
-LEVEL_NOTE = ("Trusted: Coq kernel + vm_compute; the hand-written model (scheduler, locks, JSON, file system modelled, see trusted_base); gotables (syntax only); the verif hooks; "
-              "the correspondence is sampled, the theorems are not. Partial: power-loss durability and flock are OS behaviour (tested, not proved); with concurrent mutators "
-              "the document is componentwise - not globally - a passed-through state; channel pause proof not mechanised; persist I/O errors not modelled.")
+LEVEL_NOTE = ("KNOWN FINDING K8 (replayed on every run, case fixed-K8-mixed-document, tag kf=K8): two concurrent channel deleters parked between lookup and map removal plus a Notify persist parked between "
+              "two topic reads of GetMetadata leave nsqd.dat = {a/x, b} after SIGKILL although the daemon only ever had {} {a} {a,b} {a,b/y} {a/x,b/y} {a,b/y} {a,b}; the full 'one passed-through state' clause therefore holds only outside "
+              "that region (sequential clients included). Trusted: Coq kernel + vm_compute; the hand-written model (scheduler, locks, JSON, file system modelled, see trusted_base); gotables (syntax only); the verif hooks; "
+              "the correspondence is sampled, the theorems are not. Partial: power-loss durability and flock are OS behaviour (tested, not proved); channel pause proof not mechanised; persist I/O errors not modelled.")
 TECHNIQUE = "Coq invariant proofs over all interleavings and crash points of a small-step model + differential correspondence on the real daemon (SIGKILL at named points, strace)"
 DESIGN_REF = "DESIGN.md §5 C06"
 SEARCH_SCALE = 4
